@@ -171,4 +171,106 @@ theorem step_ret_idle (s s' : State) (t c x : Nat) (r : Res)
 theorem stale_send_pc (s s' : State) (t c conn n : Nat) (d : Bytes)
     (h : stepCaller s t c (.send c conn n d) = some s') : (s.callers c).pc = .drain := by
   cases hpc : (s.callers c).pc <;> simp only [stepCaller, hpc] at h <;> first | rfl | (simp at h)
+theorem failTo_pc (k : Caller) : (failTo k).pc ≠ .read ∧ (failTo k).pc ≠ .relI := by
+  unfold failTo; split <;> simp
+
+def bufPc (p : Pc) : Bool := match p with | .drain | .read | .closing => true | _ => false
+
+set_option maxHeartbeats 4000000 in
+/-- only a caller inside the transaction (or a successful connect) touches connection, buffer and channel -/
+theorem step_buf_keep (s s' : State) (t c : Nat) (e : Ev) (h : stepCaller s t c e = some s')
+    (hp : bufPc (s.callers c).pc = false) (hc : ∀ x od, e ≠ .connect x true od) :
+    s'.conn = s.conn ∧ s'.rxbuf = s.rxbuf ∧ s'.chan = s.chan ∧ s'.eof = s.eof := by
+  step_arms
+  all_goals (first
+    | (simp [bufPc, hpc] at hp; done)
+    | (simp [State.setC, State.acquire, State.release]; done)
+    | (exfalso; exact hc _ _ rfl)
+    | (exfalso; subst_vars; exact hc _ _ rfl)
+    | (split <;> simp [State.setC, State.acquire, State.release]; done)
+    | skip)
+
+set_option maxHeartbeats 4000000 in
+/-- the read loop: what one more event does to buffer and channel -/
+theorem step_read (s s' : State) (t c : Nat) (e : Ev) (h : stepCaller s t c e = some s')
+    (hp : (s.callers c).pc = .read) :
+    s'.conn = s.conn ∧
+    ( ((s'.callers c).pc = .read ∧ (s'.rxbuf ++ s'.chan.flatten = s.rxbuf ++ s.chan.flatten) ∧ (∀ x a b d, e ≠ .send x a b d)
+        ∧ (∀ x od, e ≠ .connect x true od))
+    ∨ ((s'.callers c).pc = .relI ∧ ∃ x l r dd rest, e = .recv x (.data dd) ∧ s.chan = dd :: rest ∧
+          complete s.cfg (current (s.callers c)) (s.rxbuf ++ dd) = some (l, r) ∧
+          (s'.callers c).replies = (s.callers c).replies ++ [l])
+    ∨ ((s'.callers c).pc ≠ .read ∧ (s'.callers c).pc ≠ .relI) ) := by
+  cases e <;> simp only [stepCaller, hp] at h <;> try (simp at h)
+  all_goals (repeat' (split at h))
+  all_goals (try (simp at h; done))
+  all_goals (try (simp only [Option.some.injEq] at h))
+  all_goals (try (obtain ⟨hg, h⟩ := h))
+  all_goals (try subst h)
+  all_goals (first
+    | (refine ⟨?_, Or.inr (Or.inr ?_)⟩
+       · simp [State.setC, State.release]
+       · simp only [setC_same]; first | exact failTo_pc _ | (simp; done))
+    | (refine ⟨?_, Or.inl ⟨?_, ?_, ?_, ?_⟩⟩ <;> (simp [State.setC, *]; done))
+    | (subst_vars; exact ⟨by simp [State.setC], Or.inr (Or.inl ⟨by simp, _, _, _, _, _, rfl, ‹_›, ‹_›, by simp⟩)⟩)
+    | skip)
+
+theorem nextReq_pc (k : Caller) : (nextReq k).pc ≠ .read := by unfold nextReq; split <;> (try split) <;> simp
+theorem afterConnected_pc (k : Caller) : (afterConnected k).pc ≠ .read := by unfold afterConnected; simp; split <;> simp
+theorem toFlush_pc (s : State) (k : Caller) : (toFlush s k).pc ≠ .read := by
+  unfold toFlush; split
+  · exact (failTo_pc k).1
+  · simp
+
+set_option maxHeartbeats 4000000 in
+/-- the read loop is entered by a send only -/
+theorem step_enter_read (s s' : State) (t c : Nat) (e : Ev) (h : stepCaller s t c e = some s')
+    (hp : (s'.callers c).pc = .read) : (s.callers c).pc = .read ∨ ∃ x conn n d, e = .send x conn n d := by
+  step_arms
+  all_goals (first
+    | (left; first | exact hpc | rfl)
+    | (right; exact ⟨_, _, _, _, rfl⟩)
+    | (exfalso; simp only [setC_same] at hp; first
+        | (rw [hpc] at hp; simp at hp; done)
+        | (simp at hp; done)
+        | (exact (failTo_pc _).1 hp)
+        | (exact nextReq_pc _ hp)
+        | (exact afterConnected_pc _ hp)
+        | (exact toFlush_pc _ _ hp)
+        | (split at hp <;> first | (simp at hp; done) | (exact (failTo_pc _).1 hp) | (exact nextReq_pc _ hp) | (exact afterConnected_pc _ hp) | (exact toFlush_pc _ _ hp)))
+    | skip)
+
+/-- a send: the channel has been drained, the receive buffer is emptied -/
+theorem step_send (s s' : State) (t c x conn n : Nat) (d : Bytes) (h : stepCaller s t c (.send x conn n d) = some s') :
+    s.conn = some conn ∧ n = s.nsend ∧
+    (((s'.callers c).pc = .read ∧ s'.rxbuf = [] ∧ s'.chan = [] ∧ s'.conn = s.conn) ∨ (s'.callers c).pc = .relI) := by
+  cases hpc : (s.callers c).pc <;> simp only [stepCaller, hpc] at h <;> try (simp at h)
+  obtain ⟨⟨h1, h2, h3, h4, h5⟩, h⟩ := h
+  refine ⟨h3, h4, ?_⟩
+  split at h
+  · split at h
+    · simp only [Option.some.injEq] at h; subst h; right; simp
+    · simp only [Option.some.injEq] at h; subst h; left; simp [State.setC, h1]
+  · simp only [Option.some.injEq] at h; subst h; right; simp
+
+theorem splitFirst_eq (e : Bytes) : ∀ (a l r : Bytes), splitFirst e a = some (l, r) → a = l ++ e ++ r
+  | [], l, r, h => by
+    unfold splitFirst at h
+    split at h
+    · next he => simp only [Option.some.injEq, Prod.mk.injEq] at h; simp [← h.1, ← h.2, he]
+    · simp at h
+  | b :: bs, l, r, h => by
+    unfold splitFirst at h
+    split at h
+    · next hp =>
+      simp only [Option.some.injEq, Prod.mk.injEq] at h
+      rw [← h.1, ← h.2]
+      obtain ⟨t, ht⟩ := List.isPrefixOf_iff_prefix.1 hp
+      rw [← ht]; simp
+    · split at h
+      · next l' r' hs =>
+        simp only [Option.some.injEq, Prod.mk.injEq] at h
+        rw [← h.1, ← h.2, splitFirst_eq e bs l' r' hs]; simp
+      · simp at h
+
 end Frappy.Comm
